@@ -214,6 +214,12 @@ def run(ctx):
         cl = pp.PageParser.compute_line_confidence(line)
         if not (-1e-12 <= cl <= 1 + 1e-12):
             ctx.violation('range:compute_line_confidence', 'line confidence outside [0,1]', inp, float(cl))
+        # the stored line confidence is never below the decoder's own measure, the smallest per-frame best posterior (theorem
+        # getProb_ge_frame_min); the two may differ
+        if float(cl) < mm - 1e-9:
+            ctx.violation('line-confidence-below-frame-min', 'the line confidence is below the smallest per-frame best posterior', inp, float(cl), mm)
+        elif float(cl) > mm + 1e-9:
+            ctx.count('line_confidence_above_frame_min')
         # reference from the stored sparse logits themselves (0.0 = pruned = floor -80): the smallest, over runs of frames with the same
         # best symbol, of the largest posterior of that symbol within the run
         dz = np.asarray(line.logits.toarray(), dtype=np.float64)
